@@ -20,7 +20,7 @@ func init() { fw.Register(c15{}) }
 
 func (c15) ID() string { return "C15" }
 func (c15) Rule() string {
-	return "request pool over all symbologies incl. one QR and one DataMatrix request per distinct Reed-Solomon degree; events recorded by (a) fresh one-shot processes, (b) long-lived processes running seed-chosen sequences (ascending / descending / random degree order, repetitions, 50x repetition of one request), which retain every barcode and re-hash all at the end, (c) fresh processes running every ordered pair of RS degrees; offline checker: all digests (bounds, every pixel, Content, Metadata, CheckSum, ColorScheme) of a request are equal across all contexts; []byte aliasing probes on every Aztec request (argument unchanged; pixels and Content unchanged after the argument is overwritten); the cache hook reports the (length before, degree) states seen; non-trivial = a distinct request whose digest was compared across at least two different contexts"
+	return "request pool over all symbologies incl. one QR and one DataMatrix request per distinct Reed-Solomon degree; events recorded by (a) fresh one-shot processes, (b) long-lived processes running seed-chosen sequences (ascending / descending / random degree order, repetitions, 50x repetition of one request), which retain every barcode and re-hash all at the end, (c) fresh processes running every ordered pair of RS degrees; offline checker: all digests (bounds, every pixel, Content, Metadata, CheckSum, ColorScheme) of a request are equal across all contexts; []byte aliasing probes on every Aztec request (argument unchanged; pixels and Content unchanged after the argument is overwritten, both after a first read and when the overwrite precedes the first accessor call on the barcode or on a Scale wrapper of it); the cache hook reports the (length before, degree) states seen; non-trivial = a distinct request whose digest was compared across at least two different contexts"
 }
 func (c15) Assumptions() []string {
 	return []string{"the digest covers Bounds, RGBA of every pixel, Content, Metadata, CheckSum and ColorScheme; equality of digests is taken as equality of barcodes (SHA-256 truncated to 128 bits)"}
